@@ -41,6 +41,31 @@ def r1_leapers(ctx):
         outs = Engine(facts).run(fname)
         ctx.touch(fname)
         backs = [o for o in outs if o.kind == 'backedge']
+        # the same table written as `std::array::from_fn(|i| <targets of square 1 << i>)`
+        ff = [o for o in outs if o.kind == 'return' and o.value and o.value[0] == 'call' and o.value[1].endswith('array::from_fn')
+              and o.value[2] and o.value[2][0][0] == 'agg' and o.value[2][0][1] == 'closure']
+        if not backs and len(ff) == 1 and len([o for o in outs if o.kind == 'return']) == 1:
+            cname = ff[0].value[2][0][2]
+            couts = [o for o in Engine(facts).run(cname) if o.kind != 'abort']
+            ctx.touch(cname)
+            bad = []
+            if len(couts) == 1 and couts[0].kind == 'return' and not couts[0].conds:
+                term = couts[0].value
+                try:
+                    for i in range(64):
+                        got = ev(term, {('p', 2): i})
+                        want = geom(i, deltas)
+                        if got != want:
+                            bad.append((sq_name(1 << i), sorted(sq_name(1 << x) for x in range(64) if (got ^ want) >> x & 1)))
+                except Unevaluable as e:
+                    ctx.anchor_missing(rule, fname, 'term not evaluable: %s' % show(e.args[0])[:120])
+                    continue
+            else:
+                bad.append('slot function is not a single expression of the index')
+            ctx.ob(rule, fname, '%s targets of slot i = the %d on-board displacements of square 1<<i (64 squares)' % (piece, len(deltas)), not bad,
+                   found={'differing squares (origin: symmetric difference)': bad[:4]}, expected='exact geometric relation, no wrap-around',
+                   why='a missing or wrong wrap mask makes pieces jump across the board edge')
+            continue
         if len(backs) != 1:
             ctx.anchor_missing(rule, fname, 'expected one loop iteration path, found %d' % len(backs))
             continue
